@@ -1,6 +1,1267 @@
-//! C03 — not implemented yet.
+//! C03 — Smart-account authorization is sound and follows rule precedence.
+//!
+//! Target: the example `MultisigContract` (real `do_check_auth`).  Collaborators: harness
+//! `MockVerifier`, the real `Ed25519VerifierContract` (ed25519-dalek keys) in a fifth of the
+//! cases, 4 x `MockPolicy` with scripted answers, delegated signers as plain actors, 3 `Target`s.
+//!
+//! A case is a rule-set history (constructor rule + <= 12 admin operations, run under
+//! `mock_all_auths` because only the account itself may call them) followed by 1..4 probes of
+//! `__check_auth` with crafted `Signatures` and context batches (mocking switched off).  The
+//! oracle is an executable transcription of the property statement (`oracle()`), asserted as an
+//! equivalence; on success the enforce logs of the mock policies must be exactly the chosen
+//! rules' policies, once per context.  Probes whose contexts are distinct contract calls are in
+//! part repeated end-to-end (`Target::do_it` -> `account.require_auth()`).
+
+use crate::contracts::c03::*;
 use crate::engine::*;
+use crate::envx::{self, Inv};
+use crate::examples::ed25519_verifier::contract::Ed25519VerifierContract;
+use crate::examples::multisig_account::contract::MultisigContract;
+use crate::gen::pick;
+use ed25519_dalek::{Signer as _, SigningKey};
+use proptest::prelude::*;
+use serde::{Deserialize, Serialize};
+use sha2::{Digest, Sha256};
+use soroban_sdk::auth::{Context, ContractContext, ContractExecutable, CreateContractHostFnContext, CreateContractWithConstructorHostFnContext};
+use soroban_sdk::xdr::{
+    self, HashIdPreimage, HashIdPreimageSorobanAuthorization, Limits, ScVal, SorobanAuthorizationEntry, SorobanCredentials, WriteXdr,
+};
+use soroban_sdk::xdr::ToXdr as _;
+use soroban_sdk::{Address, Bytes, BytesN, Env, IntoVal, Map, String as SString, Symbol, TryFromVal, Val, Vec as SVec};
+use stellar_accounts::smart_account::{ContextRule, ContextRuleType, Signatures, Signer};
+use std::collections::{BTreeMap, BTreeSet};
+
+// ------------------------------------------------------------------ case
+
+/// pool: 0..6 external, 6..8 delegated; unknown (never in a rule): 8,9 external, 10 delegated
+const POOL: usize = 8;
+const NSIG: usize = 11;
+const NPOL: usize = 4;
+
+fn is_delegated(idx: usize) -> bool {
+    idx == 6 || idx == 7 || idx == 10
+}
+
+#[derive(Clone, Copy, Debug, PartialEq, Eq, PartialOrd, Ord, Serialize, Deserialize)]
+pub enum RuleTy {
+    Default,
+    /// CallContract(T0 | T1)
+    Call(u8),
+    /// CreateContract(W0)
+    Create,
+}
+
+#[derive(Clone, Copy, Debug, Serialize, Deserialize)]
+pub enum Valid {
+    None,
+    /// current ledger + d
+    Rel(i8),
+}
+
+#[derive(Clone, Debug, Serialize, Deserialize)]
+pub struct RuleSpec {
+    pub ty: RuleTy,
+    pub signers: Vec<u8>,
+    pub policies: Vec<u8>,
+    pub valid: Valid,
+}
+
+#[derive(Clone, Copy, Debug, Serialize, Deserialize)]
+pub enum Adv {
+    By(u8),
+    /// jump to `valid_until + d` of the selected rule (if that is not in the past)
+    ToExpiry(u16, i8),
+}
+
+#[derive(Clone, Debug, Serialize, Deserialize)]
+pub enum Op {
+    AddRule(RuleSpec),
+    RemoveRule(u16),
+    AddSigner(u16, u8),
+    /// (rule, which of its signers; beyond the end = a pool signer that is not a member)
+    RemoveSigner(u16, u16),
+    AddPolicy(u16, u8),
+    RemovePolicy(u16, u16),
+    SetValid(u16, Valid),
+    Rename(u16),
+    Advance(Adv),
+}
+
+#[derive(Clone, Copy, Debug, PartialEq, Eq, Serialize, Deserialize)]
+pub enum SigSel {
+    Absent,
+    Good,
+    /// does not verify; the kind selects how (see `World::sig_bytes` / delegated entries)
+    Bad(u8),
+}
+
+#[derive(Clone, Copy, Debug, Serialize, Deserialize)]
+pub enum Focus {
+    /// all signers of the selected rule sign correctly
+    Exact(u16),
+    /// all but one signer of the selected rule sign correctly, the remaining one is absent
+    MinusOne(u16, u16),
+}
+
+#[derive(Clone, Copy, Debug, PartialEq, Eq, Serialize, Deserialize)]
+pub enum CtxSel {
+    /// call T0 | T1 | T2 (no rule is ever specific to T2)
+    Call(u8),
+    /// create W0 | W1 (no rule is ever specific to W1); bool: with-constructor variant
+    Create(u8, bool),
+}
+
+#[derive(Clone, Copy, Debug, Serialize, Deserialize)]
+pub struct PolScript {
+    /// bit b set: `can_enforce` answers false for the rule created b-th
+    pub cannot_mask: u16,
+    /// additionally require this many authenticated signers
+    pub need: u8,
+    /// bit b set: `enforce` panics for the rule created b-th
+    pub refuse_mask: u16,
+}
+
+#[derive(Clone, Debug, Serialize, Deserialize)]
+pub struct Probe {
+    pub adv: Option<Adv>,
+    pub sigs: Vec<SigSel>,
+    pub focus: Option<Focus>,
+    pub contexts: Vec<CtxSel>,
+    pub scripts: Vec<PolScript>,
+    pub e2e: bool,
+    pub payload: u8,
+}
+
+#[derive(Clone, Debug, Serialize, Deserialize)]
+pub struct Case {
+    pub seq: u32,
+    pub real_ed: bool,
+    pub key_seed: u8,
+    pub init: RuleSpec,
+    pub ops: Vec<Op>,
+    pub probes: Vec<Probe>,
+}
+
+// ------------------------------------------------------------------ strategy
+
+fn valid_strategy() -> BoxedStrategy<Valid> {
+    prop_oneof![
+        5 => Just(Valid::None),
+        2 => Just(Valid::Rel(0)),
+        4 => (1i8..=4).prop_map(Valid::Rel),
+        1 => (-2i8..=-1).prop_map(Valid::Rel),
+    ]
+    .boxed()
+}
+
+fn rule_spec() -> BoxedStrategy<RuleSpec> {
+    let ty = prop_oneof![
+        3 => Just(RuleTy::Default),
+        3 => Just(RuleTy::Call(0)),
+        2 => Just(RuleTy::Call(1)),
+        2 => Just(RuleTy::Create),
+    ];
+    let signers = prop_oneof![
+        1 => Just(vec![]),
+        4 => proptest::collection::vec(0u8..POOL as u8, 1),
+        4 => proptest::collection::vec(0u8..POOL as u8, 2),
+        2 => proptest::collection::vec(0u8..POOL as u8, 3),
+    ];
+    let policies = prop_oneof![
+        5 => Just(vec![]),
+        4 => proptest::collection::vec(0u8..NPOL as u8, 1),
+        2 => proptest::collection::vec(0u8..NPOL as u8, 2),
+    ];
+    (ty, signers, policies, valid_strategy()).prop_map(|(ty, signers, policies, valid)| RuleSpec { ty, signers, policies, valid }).boxed()
+}
+
+fn adv_strategy() -> BoxedStrategy<Adv> {
+    prop_oneof![
+        2 => (0u8..=3).prop_map(Adv::By),
+        5 => (any::<u16>(), -1i8..=1).prop_map(|(r, d)| Adv::ToExpiry(r, d)),
+    ]
+    .boxed()
+}
+
+fn op_strategy() -> BoxedStrategy<Op> {
+    prop_oneof![
+        10 => rule_spec().prop_map(Op::AddRule),
+        2 => any::<u16>().prop_map(Op::RemoveRule),
+        2 => (any::<u16>(), 0u8..POOL as u8).prop_map(|(r, s)| Op::AddSigner(r, s)),
+        2 => (any::<u16>(), any::<u16>()).prop_map(|(r, s)| Op::RemoveSigner(r, s)),
+        2 => (any::<u16>(), 0u8..NPOL as u8).prop_map(|(r, p)| Op::AddPolicy(r, p)),
+        2 => (any::<u16>(), any::<u16>()).prop_map(|(r, p)| Op::RemovePolicy(r, p)),
+        2 => (any::<u16>(), valid_strategy()).prop_map(|(r, v)| Op::SetValid(r, v)),
+        1 => any::<u16>().prop_map(Op::Rename),
+        3 => adv_strategy().prop_map(Op::Advance),
+    ]
+    .boxed()
+}
+
+fn sig_sel(absent: u32, good: u32, bad: u32) -> BoxedStrategy<SigSel> {
+    prop_oneof![
+        absent => Just(SigSel::Absent),
+        good => Just(SigSel::Good),
+        bad => (0u8..3).prop_map(SigSel::Bad),
+    ]
+    .boxed()
+}
+
+fn probe_strategy() -> BoxedStrategy<Probe> {
+    let sigs = (proptest::collection::vec(sig_sel(24, 28, 1), POOL), proptest::collection::vec(sig_sel(28, 6, 1), NSIG - POOL)).prop_map(|(mut a, b)| {
+        a.extend(b);
+        a
+    });
+    let focus = prop_oneof![
+        3 => Just(None),
+        4 => any::<u16>().prop_map(|r| Some(Focus::Exact(r))),
+        2 => (any::<u16>(), any::<u16>()).prop_map(|(r, w)| Some(Focus::MinusOne(r, w))),
+    ];
+    let ctx = prop_oneof![
+        4 => Just(CtxSel::Call(0)),
+        3 => Just(CtxSel::Call(1)),
+        2 => Just(CtxSel::Call(2)),
+        3 => any::<bool>().prop_map(|c| CtxSel::Create(0, c)),
+        1 => any::<bool>().prop_map(|c| CtxSel::Create(1, c)),
+    ];
+    let contexts = prop_oneof![
+        5 => proptest::collection::vec(ctx.clone(), 1),
+        3 => proptest::collection::vec(ctx.clone(), 2),
+        2 => proptest::collection::vec(ctx, 3),
+    ];
+    let script = (any::<[u16; 3]>(), prop_oneof![6 => Just(0u8), 2 => Just(1u8), 1 => Just(2u8)], any::<[u16; 4]>()).prop_map(|(c, need, r)| PolScript {
+        cannot_mask: c[0] & c[1] & c[2],
+        need,
+        refuse_mask: r[0] & r[1] & r[2] & r[3],
+    });
+    let adv = prop_oneof![6 => Just(None), 4 => adv_strategy().prop_map(Some)];
+    (adv, sigs, focus, contexts, proptest::collection::vec(script, NPOL), proptest::bool::weighted(0.2), any::<u8>())
+        .prop_map(|(adv, sigs, focus, contexts, scripts, e2e, payload)| Probe { adv, sigs, focus, contexts, scripts, e2e, payload })
+        .boxed()
+}
+
+fn strategy(tier: Tier) -> BoxedStrategy<Case> {
+    let max_ops = tier.pick(12usize, 12usize);
+    (
+        100u32..100_000,
+        proptest::bool::weighted(0.2),
+        any::<u8>(),
+        rule_spec(),
+        proptest::collection::vec(op_strategy(), 0..=max_ops),
+        prop_oneof![1 => Just(1usize), 2 => Just(2usize), 3 => Just(3usize), 3 => Just(4usize)].prop_flat_map(|n| proptest::collection::vec(probe_strategy(), n)),
+    )
+        .prop_map(|(seq, real_ed, key_seed, init, ops, probes)| Case { seq, real_ed, key_seed, init, ops, probes })
+        .boxed()
+}
+
+// ------------------------------------------------------------------ reference model (from the statement)
+
+#[derive(Clone, Debug)]
+struct MRule {
+    /// creation order (0 = constructor rule); "newest" = largest
+    born: u32,
+    /// id the contract assigned
+    id: u32,
+    ty: RuleTy,
+    signers: BTreeSet<usize>,
+    policies: BTreeSet<usize>,
+    valid_until: Option<u32>,
+}
+
+#[derive(Clone, Copy, Debug, PartialEq, Eq)]
+enum CtxTy {
+    Call(u8),
+    Create(u8),
+}
+
+fn ctx_ty(c: &CtxSel) -> CtxTy {
+    match c {
+        CtxSel::Call(t) => CtxTy::Call(*t),
+        CtxSel::Create(w, _) => CtxTy::Create(*w),
+    }
+}
+
+fn rule_matches(ty: RuleTy, c: CtxTy) -> bool {
+    match (ty, c) {
+        (RuleTy::Call(a), CtxTy::Call(b)) => a == b,
+        (RuleTy::Create, CtxTy::Create(w)) => w == 0,
+        _ => false,
+    }
+}
+
+#[derive(Clone, Copy, Debug, PartialEq, Eq)]
+enum Variant {
+    /// the statement
+    Spec,
+    // deliberately wrong readings, only used to MEASURE how many probes could tell them apart
+    OldestFirst,
+    DefaultFirst,
+    ExpiredAtValidUntil,
+    IgnoreExpiry,
+    AnyRuleSigner,
+    CountOutsiders,
+    NoVerify,
+}
+
+#[derive(Clone, Debug, PartialEq, Eq)]
+struct Chosen {
+    born: u32,
+    id: u32,
+    auth: BTreeSet<usize>,
+    policies: BTreeSet<usize>,
+}
+
+#[derive(Clone, Debug, PartialEq, Eq)]
+enum Verdict {
+    Accept(Vec<Chosen>),
+    RejectBadSignature,
+    RejectNoRule(usize),
+    RejectEnforceRefused,
+}
+impl Verdict {
+    fn accepts(&self) -> bool {
+        matches!(self, Verdict::Accept(_))
+    }
+}
+
+struct ProbeIn<'a> {
+    now: u32,
+    /// state of every signer 0..NSIG
+    sigs: &'a [SigSel],
+    contexts: &'a [CtxSel],
+    scripts: &'a [PolScript],
+}
+
+fn live(r: &MRule, now: u32, v: Variant) -> bool {
+    match r.valid_until {
+        None => true,
+        Some(u) => match v {
+            Variant::IgnoreExpiry => true,
+            Variant::ExpiredAtValidUntil => u > now,
+            // a rule is usable up to and including ledger `valid_until`
+            // (`add_context_rule` documents only `valid_until < current` as "in the past")
+            _ => u >= now,
+        },
+    }
+}
+
+fn candidates<'a>(rules: &'a [MRule], c: CtxTy, now: u32, v: Variant) -> Vec<&'a MRule> {
+    let mut specific: Vec<&MRule> = rules.iter().filter(|r| rule_matches(r.ty, c) && live(r, now, v)).collect();
+    let mut default: Vec<&MRule> = rules.iter().filter(|r| r.ty == RuleTy::Default && live(r, now, v)).collect();
+    if v == Variant::OldestFirst {
+        specific.sort_by_key(|r| r.born);
+        default.sort_by_key(|r| r.born);
+    } else {
+        specific.sort_by_key(|r| std::cmp::Reverse(r.born));
+        default.sort_by_key(|r| std::cmp::Reverse(r.born));
+    }
+    if v == Variant::DefaultFirst {
+        default.extend(specific);
+        default
+    } else {
+        specific.extend(default);
+        specific
+    }
+}
+
+fn script_can(s: &PolScript, born: u32, n_auth: usize) -> bool {
+    (s.cannot_mask >> born.min(15)) & 1 == 0 && n_auth >= s.need as usize
+}
+fn script_refuses(s: &PolScript, born: u32) -> bool {
+    (s.refuse_mask >> born.min(15)) & 1 == 1
+}
+
+/// Executable transcription of the C03 statement.
+fn oracle(rules: &[MRule], p: &ProbeIn, v: Variant) -> Verdict {
+    // (i) every supplied signature must verify
+    if v != Variant::NoVerify && p.sigs.iter().any(|s| matches!(s, SigSel::Bad(_))) {
+        return Verdict::RejectBadSignature;
+    }
+    let supplied: BTreeSet<usize> = p.sigs.iter().enumerate().filter(|(_, s)| **s != SigSel::Absent).map(|(i, _)| i).collect();
+    // (ii) every context needs a covering rule: newest first, type-specific before Default
+    let mut chosen = vec![];
+    for (ci, c) in p.contexts.iter().enumerate() {
+        let mut found = None;
+        for r in candidates(rules, ctx_ty(c), p.now, v) {
+            let auth: BTreeSet<usize> = r.signers.intersection(&supplied).copied().collect();
+            let ok = if r.policies.is_empty() {
+                match v {
+                    Variant::AnyRuleSigner => !auth.is_empty(),
+                    Variant::CountOutsiders => supplied.len() >= r.signers.len(),
+                    _ => auth.len() == r.signers.len(),
+                }
+            } else {
+                r.policies.iter().all(|pi| script_can(&p.scripts[*pi], r.born, auth.len()))
+            };
+            if ok {
+                found = Some(Chosen { born: r.born, id: r.id, auth, policies: r.policies.clone() });
+                break;
+            }
+        }
+        match found {
+            Some(c) => chosen.push(c),
+            None => return Verdict::RejectNoRule(ci),
+        }
+    }
+    // (iii) the chosen rules' policies are enforced; a refusal rejects
+    for c in &chosen {
+        if c.policies.iter().any(|pi| script_refuses(&p.scripts[*pi], c.born)) {
+            return Verdict::RejectEnforceRefused;
+        }
+    }
+    Verdict::Accept(chosen)
+}
+
+// ------------------------------------------------------------------ world
+
+struct World {
+    e: Env,
+    account: Address,
+    mockv: Address,
+    policies: Vec<Address>,
+    targets: Vec<Address>,
+    wasm: Vec<BytesN<32>>,
+    signers: Vec<Signer>,
+    ed: BTreeMap<usize, SigningKey>,
+}
+
+impl World {
+    fn signer_idx(&self, s: &Signer) -> Option<usize> {
+        self.signers.iter().position(|x| x == s)
+    }
+    fn policy_idx(&self, a: &Address) -> Option<usize> {
+        self.policies.iter().position(|x| x == a)
+    }
+    fn deleg_addr(&self, idx: usize) -> Address {
+        match &self.signers[idx] {
+            Signer::Delegated(a) => a.clone(),
+            _ => unreachable!("delegated index"),
+        }
+    }
+    fn rule_type(&self, ty: RuleTy) -> ContextRuleType {
+        match ty {
+            RuleTy::Default => ContextRuleType::Default,
+            RuleTy::Call(t) => ContextRuleType::CallContract(self.targets[t as usize].clone()),
+            RuleTy::Create => ContextRuleType::CreateContract(self.wasm[0].clone()),
+        }
+    }
+    fn signer_vec(&self, idxs: &[usize]) -> SVec<Signer> {
+        let mut v = SVec::new(&self.e);
+        for i in idxs {
+            v.push_back(self.signers[*i].clone());
+        }
+        v
+    }
+    fn policy_map(&self, idxs: &BTreeSet<usize>) -> Map<Address, Val> {
+        let mut m = Map::new(&self.e);
+        for i in idxs {
+            m.set(self.policies[*i].clone(), ().into_val(&self.e));
+        }
+        m
+    }
+    /// signature bytes of an external signer for `payload`
+    fn sig_bytes(&self, idx: usize, sel: SigSel, payload: &[u8; 32]) -> Bytes {
+        let e = &self.e;
+        if let Some(k) = self.ed.get(&idx) {
+            let good = k.sign(payload).to_bytes();
+            match sel {
+                SigSel::Bad(0) => {
+                    let mut s = good;
+                    s[(payload[0] as usize) % 64] ^= 0x04;
+                    Bytes::from_array(e, &s)
+                }
+                SigSel::Bad(1) => {
+                    let mut other = *payload;
+                    other[31] ^= 1;
+                    Bytes::from_array(e, &k.sign(&other).to_bytes())
+                }
+                SigSel::Bad(_) => Bytes::from_slice(e, &good[..63]),
+                _ => Bytes::from_array(e, &good),
+            }
+        } else {
+            match sel {
+                SigSel::Bad(0) => Bytes::from_array(e, &[SIG_FALSE, idx as u8]),
+                SigSel::Bad(1) => Bytes::from_array(e, &[SIG_PANIC, idx as u8]),
+                SigSel::Bad(_) => Bytes::new(e),
+                _ => Bytes::from_array(e, &[SIG_GOOD, idx as u8, payload[0]]),
+            }
+        }
+    }
+    fn context(&self, c: &CtxSel, rest: &[CtxSel]) -> Context {
+        let e = &self.e;
+        match c {
+            CtxSel::Call(t) => {
+                // same shape as the end-to-end call: do_it(account, rest of the call chain)
+                let mut chain: SVec<Address> = SVec::new(e);
+                for r in rest {
+                    if let CtxSel::Call(t2) = r {
+                        chain.push_back(self.targets[*t2 as usize].clone());
+                    }
+                }
+                Context::Contract(ContractContext {
+                    contract: self.targets[*t as usize].clone(),
+                    fn_name: Symbol::new(e, "do_it"),
+                    args: args![e; self.account.clone(), chain],
+                })
+            }
+            CtxSel::Create(w, false) => Context::CreateContractHostFn(CreateContractHostFnContext {
+                executable: ContractExecutable::Wasm(self.wasm[*w as usize].clone()),
+                salt: BytesN::from_array(e, &[7u8; 32]),
+            }),
+            CtxSel::Create(w, true) => Context::CreateContractWithCtorHostFn(CreateContractWithConstructorHostFnContext {
+                executable: ContractExecutable::Wasm(self.wasm[*w as usize].clone()),
+                salt: BytesN::from_array(e, &[9u8; 32]),
+                constructor_args: args![e; 5u32],
+            }),
+        }
+    }
+}
+
+fn setup(case: &Case, init_signers: &[usize], init_policies: &BTreeSet<usize>) -> World {
+    let e = envx::new_env(case.seq, envx::BIG_TTL);
+    let mockv = e.register(MockVerifier, ());
+    let edv = e.register(Ed25519VerifierContract, ());
+    let policies: Vec<Address> = (0..NPOL).map(|_| e.register(MockPolicy, ())).collect();
+    let targets: Vec<Address> = (0..3).map(|_| e.register(Target, ())).collect();
+    let wasm = vec![BytesN::from_array(&e, &[0xA0u8; 32]), BytesN::from_array(&e, &[0xA1u8; 32])];
+    let mut signers = vec![];
+    let mut ed = BTreeMap::new();
+    for idx in 0..NSIG {
+        if is_delegated(idx) {
+            signers.push(Signer::Delegated(envx::actor(&e)));
+        } else if case.real_ed && idx % 2 == 0 {
+            let mut seed = [case.key_seed; 32];
+            seed[0] = idx as u8 + 1;
+            let k = SigningKey::from_bytes(&seed);
+            signers.push(Signer::External(edv.clone(), Bytes::from_array(&e, &k.verifying_key().to_bytes())));
+            ed.insert(idx, k);
+        } else {
+            signers.push(Signer::External(mockv.clone(), Bytes::from_array(&e, &[idx as u8 + 1, case.key_seed, 0x5a])));
+        }
+    }
+    let mut w = World { e, account: mockv.clone(), mockv, policies, targets, wasm, signers, ed };
+    let account = w.e.register(MultisigContract, (w.signer_vec(init_signers), w.policy_map(init_policies)));
+    w.account = account;
+    w
+}
+
+fn dedup(v: &[u8]) -> Vec<usize> {
+    let mut out: Vec<usize> = vec![];
+    for x in v {
+        if !out.contains(&(*x as usize)) {
+            out.push(*x as usize);
+        }
+    }
+    out
+}
+
+fn resolve_valid(v: Valid, now: u32) -> Option<u32> {
+    match v {
+        Valid::None => None,
+        Valid::Rel(d) => Some((now as i64 + d as i64).max(0) as u32),
+    }
+}
+
+/// Resolve a rule selector against the model: index into the live list, or `None` (absent id).
+fn sel_rule(rules: &[MRule], sel: u16) -> Option<usize> {
+    let i = pick(sel, rules.len() + 1);
+    if i < rules.len() {
+        Some(i)
+    } else {
+        None
+    }
+}
+
+fn advance(w: &World, rules: &[MRule], a: Adv, ctx: &mut Ctx) {
+    match a {
+        Adv::By(k) => envx::advance(&w.e, k as u32),
+        Adv::ToExpiry(r, d) => {
+            let with_expiry: Vec<&MRule> = rules.iter().filter(|r| r.valid_until.is_some()).collect();
+            if with_expiry.is_empty() {
+                return;
+            }
+            let u = with_expiry[pick(r, with_expiry.len())].valid_until.unwrap() as i64 + d as i64;
+            if u >= envx::seq(&w.e) as i64 && u <= u32::MAX as i64 {
+                envx::set_seq(&w.e, u as u32);
+                ctx.class("advance_to_expiry_edge");
+            }
+        }
+    }
+}
+
+fn same_fingerprint(rules: &[MRule], skip: Option<usize>, ty: RuleTy, s: &BTreeSet<usize>, p: &BTreeSet<usize>) -> bool {
+    rules.iter().enumerate().any(|(i, r)| Some(i) != skip && r.ty == ty && &r.signers == s && &r.policies == p)
+}
+
+/// Executes one admin operation under `mock_all_auths`; the model follows the ACTUAL outcome
+/// (set-up is not the subject of C03), the documented outcome is only compared for statistics.
+fn apply_op(w: &World, rules: &mut Vec<MRule>, born: &mut u32, op: &Op, ctx: &mut Ctx) -> R {
+    let e = &w.e;
+    let now = envx::seq(e);
+    let acc = &w.account;
+    let absent_id = 777u32;
+    let note = |ctx: &mut Ctx, what: &str, got: bool, documented: bool| {
+        ctx.op(got);
+        if got != documented {
+            ctx.class(&format!("setup_{what}_{}", if got { "ok_but_documented_error" } else { "failed_unexpectedly" }));
+        } else if !got {
+            ctx.class(&format!("setup_{what}_refused_as_documented"));
+        }
+    };
+    match op {
+        Op::AddRule(spec) => {
+            let signers = dedup(&spec.signers);
+            let policies: BTreeSet<usize> = spec.policies.iter().map(|p| *p as usize).collect();
+            let sset: BTreeSet<usize> = signers.iter().copied().collect();
+            let vu = resolve_valid(spec.valid, now);
+            let documented = !(sset.is_empty() && policies.is_empty()) && vu.map(|u| u >= now).unwrap_or(true) && !same_fingerprint(rules, None, spec.ty, &sset, &policies) && rules.len() < 15;
+            let r = envx::call_t::<ContextRule>(
+                e,
+                acc,
+                "add_context_rule",
+                args![e; w.rule_type(spec.ty), SString::from_str(e, "r"), vu, w.signer_vec(&signers), w.policy_map(&policies)],
+            );
+            note(ctx, "add_rule", r.is_ok(), documented);
+            if let Ok(cr) = r {
+                rules.push(MRule { born: *born, id: cr.id, ty: spec.ty, signers: sset, policies, valid_until: vu });
+                *born += 1;
+            }
+        }
+        Op::RemoveRule(sel) => {
+            let ri = sel_rule(rules, *sel);
+            let id = ri.map(|i| rules[i].id).unwrap_or(absent_id);
+            let r = envx::call(e, acc, "remove_context_rule", args![e; id]);
+            note(ctx, "remove_rule", r.is_ok(), ri.is_some());
+            if r.is_ok() {
+                if let Some(i) = ri {
+                    rules.remove(i);
+                } else {
+                    bail!("C03/setup/removed-absent-rule", "remove_context_rule({id}) succeeded for an id that was never created");
+                }
+            }
+        }
+        Op::AddSigner(sel, s) => {
+            let ri = sel_rule(rules, *sel);
+            let id = ri.map(|i| rules[i].id).unwrap_or(absent_id);
+            let si = *s as usize;
+            let documented = ri
+                .map(|i| {
+                    let mut ns = rules[i].signers.clone();
+                    !rules[i].signers.contains(&si) && {
+                        ns.insert(si);
+                        !same_fingerprint(rules, Some(i), rules[i].ty, &ns, &rules[i].policies)
+                    }
+                })
+                .unwrap_or(false);
+            let r = envx::call(e, acc, "add_signer", args![e; id, w.signers[si].clone()]);
+            note(ctx, "add_signer", r.is_ok(), documented);
+            if r.is_ok() {
+                match ri {
+                    Some(i) => {
+                        rules[i].signers.insert(si);
+                    }
+                    None => bail!("C03/setup/changed-absent-rule", "add_signer on absent rule id {id} succeeded"),
+                }
+            }
+        }
+        Op::RemoveSigner(sel, which) => {
+            let ri = sel_rule(rules, *sel);
+            let id = ri.map(|i| rules[i].id).unwrap_or(absent_id);
+            // member of the rule, or (beyond the end) a pool signer that is not a member
+            let (si, member) = match ri {
+                Some(i) => {
+                    let members: Vec<usize> = rules[i].signers.iter().copied().collect();
+                    let k = pick(*which, members.len() + 1);
+                    if k < members.len() {
+                        (members[k], true)
+                    } else {
+                        ((0..POOL).find(|x| !rules[i].signers.contains(x)).unwrap_or(0), (0..POOL).all(|x| rules[i].signers.contains(&x)))
+                    }
+                }
+                None => (0, false),
+            };
+            let documented = ri
+                .map(|i| {
+                    let mut ns = rules[i].signers.clone();
+                    ns.remove(&si);
+                    member && !(ns.is_empty() && rules[i].policies.is_empty()) && !same_fingerprint(rules, Some(i), rules[i].ty, &ns, &rules[i].policies)
+                })
+                .unwrap_or(false);
+            let r = envx::call(e, acc, "remove_signer", args![e; id, w.signers[si].clone()]);
+            note(ctx, "remove_signer", r.is_ok(), documented);
+            if r.is_ok() {
+                match ri {
+                    Some(i) => {
+                        rules[i].signers.remove(&si);
+                    }
+                    None => bail!("C03/setup/changed-absent-rule", "remove_signer on absent rule id {id} succeeded"),
+                }
+            }
+        }
+        Op::AddPolicy(sel, p) => {
+            let ri = sel_rule(rules, *sel);
+            let id = ri.map(|i| rules[i].id).unwrap_or(absent_id);
+            let pi = *p as usize;
+            let documented = ri
+                .map(|i| {
+                    let mut np = rules[i].policies.clone();
+                    !rules[i].policies.contains(&pi) && {
+                        np.insert(pi);
+                        !same_fingerprint(rules, Some(i), rules[i].ty, &rules[i].signers, &np)
+                    }
+                })
+                .unwrap_or(false);
+            let unit: Val = ().into_val(e);
+            let r = envx::call(e, acc, "add_policy", args![e; id, w.policies[pi].clone(), unit]);
+            note(ctx, "add_policy", r.is_ok(), documented);
+            if r.is_ok() {
+                match ri {
+                    Some(i) => {
+                        rules[i].policies.insert(pi);
+                    }
+                    None => bail!("C03/setup/changed-absent-rule", "add_policy on absent rule id {id} succeeded"),
+                }
+            }
+        }
+        Op::RemovePolicy(sel, which) => {
+            let ri = sel_rule(rules, *sel);
+            let id = ri.map(|i| rules[i].id).unwrap_or(absent_id);
+            let (pi, member) = match ri {
+                Some(i) => {
+                    let members: Vec<usize> = rules[i].policies.iter().copied().collect();
+                    let k = pick(*which, members.len() + 1);
+                    if k < members.len() {
+                        (members[k], true)
+                    } else {
+                        ((0..NPOL).find(|x| !rules[i].policies.contains(x)).unwrap_or(0), (0..NPOL).all(|x| rules[i].policies.contains(&x)))
+                    }
+                }
+                None => (0, false),
+            };
+            let documented = ri
+                .map(|i| {
+                    let mut np = rules[i].policies.clone();
+                    np.remove(&pi);
+                    member && !(np.is_empty() && rules[i].signers.is_empty()) && !same_fingerprint(rules, Some(i), rules[i].ty, &rules[i].signers, &np)
+                })
+                .unwrap_or(false);
+            let r = envx::call(e, acc, "remove_policy", args![e; id, w.policies[pi].clone()]);
+            note(ctx, "remove_policy", r.is_ok(), documented);
+            if r.is_ok() {
+                match ri {
+                    Some(i) => {
+                        rules[i].policies.remove(&pi);
+                    }
+                    None => bail!("C03/setup/changed-absent-rule", "remove_policy on absent rule id {id} succeeded"),
+                }
+            }
+        }
+        Op::SetValid(sel, v) => {
+            let ri = sel_rule(rules, *sel);
+            let id = ri.map(|i| rules[i].id).unwrap_or(absent_id);
+            let vu = resolve_valid(*v, now);
+            let documented = ri.is_some() && vu.map(|u| u >= now).unwrap_or(true);
+            let r = envx::call(e, acc, "update_context_rule_valid_until", args![e; id, vu]);
+            note(ctx, "set_valid_until", r.is_ok(), documented);
+            if r.is_ok() {
+                match ri {
+                    Some(i) => rules[i].valid_until = vu,
+                    None => bail!("C03/setup/changed-absent-rule", "update_context_rule_valid_until on absent rule id {id} succeeded"),
+                }
+            }
+        }
+        Op::Rename(sel) => {
+            let ri = sel_rule(rules, *sel);
+            let id = ri.map(|i| rules[i].id).unwrap_or(absent_id);
+            let r = envx::call(e, acc, "update_context_rule_name", args![e; id, SString::from_str(e, "renamed")]);
+            note(ctx, "rename", r.is_ok(), ri.is_some());
+        }
+        Op::Advance(a) => advance(w, rules, *a, ctx),
+    }
+    Ok(())
+}
+
+/// The account's getters must show exactly the model's rule set (otherwise the oracle would be
+/// evaluated against a rule set the account does not hold).
+fn check_rule_set(w: &World, rules: &[MRule]) -> R {
+    let e = &w.e;
+    let n = envx::call_t::<u32>(e, &w.account, "get_context_rules_count", args![e]).map_err(|er| violation("C03/setup/getter-failed", er))?;
+    ensure!(n as usize == rules.len(), "C03/setup/rule-set-mismatch", "get_context_rules_count = {n}, model holds {} rules", rules.len());
+    let mut ids = BTreeSet::new();
+    for r in rules {
+        ensure!(ids.insert(r.id), "C03/setup/rule-set-mismatch", "rule id {} assigned twice", r.id);
+        let cr = envx::call_t::<ContextRule>(e, &w.account, "get_context_rule", args![e; r.id]).map_err(|er| violation("C03/setup/getter-failed", format!("get_context_rule({}): {er}", r.id)))?;
+        let signers: Option<BTreeSet<usize>> = cr.signers.iter().map(|s| w.signer_idx(&s)).collect();
+        let policies: Option<BTreeSet<usize>> = cr.policies.iter().map(|p| w.policy_idx(&p)).collect();
+        let same = cr.context_type == w.rule_type(r.ty)
+            && signers.as_ref() == Some(&r.signers)
+            && cr.signers.len() as usize == r.signers.len()
+            && policies.as_ref() == Some(&r.policies)
+            && cr.policies.len() as usize == r.policies.len()
+            && cr.valid_until == r.valid_until;
+        ensure!(
+            same,
+            "C03/setup/rule-set-mismatch",
+            "rule id {}: account holds (signers {:?}, policies {:?}, valid_until {:?}), model {:?}",
+            r.id,
+            signers,
+            policies,
+            cr.valid_until,
+            r
+        );
+    }
+    Ok(())
+}
+
+// ------------------------------------------------------------------ probing
+
+struct Logs {
+    policies: Vec<Vec<EnforceRec>>,
+    verifier: Vec<VerifyRec>,
+}
+fn read_logs(w: &World) -> Logs {
+    Logs { policies: w.policies.iter().map(|p| policy_log(&w.e, p).iter().collect()).collect(), verifier: verifier_log(&w.e, &w.mockv).iter().collect() }
+}
+
+/// Builds the `Signatures` value for `payload` and the auth entries of the delegated signers that sign.
+fn build_signatures(w: &World, sigs: &[SigSel], payload: &[u8; 32]) -> (Signatures, Vec<SorobanAuthorizationEntry>) {
+    let e = &w.e;
+    let mut m: Map<Signer, Bytes> = Map::new(e);
+    let mut entries = vec![];
+    let payload_bn = BytesN::from_array(e, payload);
+    for (idx, sel) in sigs.iter().enumerate() {
+        if *sel == SigSel::Absent {
+            continue;
+        }
+        if is_delegated(idx) {
+            m.set(w.signers[idx].clone(), Bytes::new(e));
+            let who = w.deleg_addr(idx);
+            match sel {
+                SigSel::Good => entries.push(envx::entry(e, &who, &Inv::new(&w.account, "__check_auth", args![e; payload_bn.clone()]))),
+                // no entry at all
+                SigSel::Bad(0) => {}
+                // an entry for another payload
+                SigSel::Bad(1) => {
+                    let mut other = *payload;
+                    other[0] ^= 0x80;
+                    entries.push(envx::entry(e, &who, &Inv::new(&w.account, "__check_auth", args![e; BytesN::from_array(e, &other)])));
+                }
+                // the right invocation, authorized by somebody else
+                _ => {
+                    let other = w.deleg_addr(if idx == 10 { 6 } else { 10 });
+                    // (only when that other signer does not need the entry itself)
+                    if sigs[if idx == 10 { 6 } else { 10 }] == SigSel::Absent {
+                        entries.push(envx::entry(e, &other, &Inv::new(&w.account, "__check_auth", args![e; payload_bn.clone()])));
+                    }
+                }
+            }
+        } else {
+            m.set(w.signers[idx].clone(), w.sig_bytes(idx, *sel, payload));
+        }
+    }
+    (Signatures(m), entries)
+}
+
+fn auth_payload(e: &Env, entry: &SorobanAuthorizationEntry) -> Option<[u8; 32]> {
+    let SorobanCredentials::Address(c) = &entry.credentials else { return None };
+    let pre = HashIdPreimage::SorobanAuthorization(HashIdPreimageSorobanAuthorization {
+        network_id: xdr::Hash(e.ledger().network_id().to_array()),
+        nonce: c.nonce,
+        signature_expiration_ledger: c.signature_expiration_ledger,
+        invocation: entry.root_invocation.clone(),
+    });
+    let bytes = pre.to_xdr(Limits::none()).ok()?;
+    Some(Sha256::digest(&bytes).into())
+}
+
+fn check_logs(w: &World, before: &Logs, after: &Logs, expect: &Verdict, ctxs: &[Context], sigs: &[SigSel], payload: &[u8; 32], how: &str, what: &str) -> R {
+    let e = &w.e;
+    match expect {
+        Verdict::Accept(chosen) => {
+            for (pi, (b, a)) in before.policies.iter().zip(after.policies.iter()).enumerate() {
+                ensure!(a.len() >= b.len() && a[..b.len()] == b[..], "C03/enforce/log-not-append-only", "{what} [{how}]: policy {pi} log rewritten");
+                let delta = &a[b.len()..];
+                let want: Vec<(usize, &Chosen)> = chosen.iter().enumerate().filter(|(_, c)| c.policies.contains(&pi)).collect();
+                let describe = || {
+                    format!(
+                        "policy {pi} received enforce for (context#, rule id, signers) {:?}, expected {:?}",
+                        delta
+                            .iter()
+                            .map(|r| (ctxs.iter().position(|c| c.clone().to_xdr(e) == r.context), r.rule_id, r.signers.iter().map(|s| w.signer_idx(&s)).collect::<Vec<_>>()))
+                            .collect::<Vec<_>>(),
+                        want.iter().map(|(ci, c)| (*ci, c.id, c.auth.clone())).collect::<Vec<_>>()
+                    )
+                };
+                ensure!(delta.len() == want.len(), "C03/enforce/wrong-policies-enforced", "{what} [{how}]: {}", describe());
+                for (rec, (ci, c)) in delta.iter().zip(want.iter()) {
+                    let got_signers: Option<BTreeSet<usize>> = rec.signers.iter().map(|s| w.signer_idx(&s)).collect();
+                    let ok = rec.context == ctxs[*ci].clone().to_xdr(e)
+                        && rec.rule_id == c.id
+                        && rec.account == w.account
+                        && got_signers.as_ref() == Some(&c.auth)
+                        && rec.signers.len() as usize == c.auth.len();
+                    ensure!(ok, "C03/enforce/wrong-policies-enforced", "{what} [{how}]: {}", describe());
+                }
+            }
+            // every supplied external signature was really checked against this payload
+            let vdelta = &after.verifier[before.verifier.len().min(after.verifier.len())..];
+            for (idx, sel) in sigs.iter().enumerate() {
+                if *sel == SigSel::Absent || is_delegated(idx) || w.ed.contains_key(&idx) {
+                    continue;
+                }
+                let Signer::External(_, key) = &w.signers[idx] else { continue };
+                let sig = w.sig_bytes(idx, *sel, payload);
+                let seen = vdelta.iter().any(|r| r.key == *key && r.sig == sig && r.payload == Bytes::from_array(e, payload));
+                ensure!(seen, "C03/check_auth/accepted-unverified-signature", "{what} [{how}]: accepted, but the verifier of supplied signer {idx} was never asked about (payload, key, signature)");
+            }
+        }
+        _ => {
+            let same = before.policies == after.policies && before.verifier == after.verifier;
+            ensure!(same, "C03/check_auth/rejected-but-state-changed", "{what} [{how}]: rejected, yet collaborator logs changed");
+        }
+    }
+    Ok(())
+}
+
+fn verdict_sig(expect: &Verdict, got_ok: bool) -> &'static str {
+    match (expect, got_ok) {
+        (Verdict::RejectBadSignature, true) => "C03/check_auth/accepted-unverified-signature",
+        (Verdict::RejectNoRule(_), true) => "C03/check_auth/accepted-without-covering-rule",
+        (Verdict::RejectEnforceRefused, true) => "C03/enforce/accepted-despite-refusal",
+        _ => "C03/check_auth/rejected-valid",
+    }
+}
+
+fn run_probe(w: &World, rules: &[MRule], pi: usize, p: &Probe, ctx: &mut Ctx, st: &mut Stats) -> R {
+    let e = &w.e;
+    if let Some(a) = p.adv {
+        advance(w, rules, a, ctx);
+    }
+    let now = envx::seq(e);
+    // ---- resolve the supplied signatures
+    let mut sigs: Vec<SigSel> = (0..NSIG).map(|i| p.sigs.get(i).copied().unwrap_or(SigSel::Absent)).collect();
+    if !rules.is_empty() {
+        match p.focus {
+            Some(Focus::Exact(r)) => {
+                for s in &rules[pick(r, rules.len())].signers {
+                    sigs[*s] = SigSel::Good;
+                }
+            }
+            Some(Focus::MinusOne(r, k)) => {
+                let rs: Vec<usize> = rules[pick(r, rules.len())].signers.iter().copied().collect();
+                for s in &rs {
+                    sigs[*s] = SigSel::Good;
+                }
+                if !rs.is_empty() {
+                    sigs[rs[pick(k, rs.len())]] = SigSel::Absent;
+                }
+            }
+            None => {}
+        }
+    }
+    // ---- contexts (an end-to-end probe needs distinct contract calls)
+    let mut sels: Vec<CtxSel> = p.contexts.iter().take(3).copied().collect();
+    let mut e2e = false;
+    if p.e2e {
+        let mut calls: Vec<CtxSel> = vec![];
+        for c in &sels {
+            if matches!(c, CtxSel::Call(_)) && !calls.contains(c) {
+                calls.push(*c);
+            }
+        }
+        if !calls.is_empty() {
+            sels = calls;
+            e2e = true;
+        }
+    }
+    if sels.is_empty() {
+        sels.push(CtxSel::Call(0));
+    }
+    let ctxs: Vec<Context> = (0..sels.len()).map(|i| w.context(&sels[i], &sels[i + 1..])).collect();
+    let mut ctx_vec: SVec<Context> = SVec::new(e);
+    for c in &ctxs {
+        ctx_vec.push_back(c.clone());
+    }
+    // ---- scripted policy behaviour for this probe
+    let scripts: Vec<PolScript> = (0..NPOL).map(|i| p.scripts.get(i).copied().unwrap_or(PolScript { cannot_mask: 0, need: 0, refuse_mask: 0 })).collect();
+    for (pi, pol) in w.policies.iter().enumerate() {
+        for r in rules {
+            let s = PolicyScript { can: (scripts[pi].cannot_mask >> r.born.min(15)) & 1 == 0, need: scripts[pi].need as u32, enforce_ok: (scripts[pi].refuse_mask >> r.born.min(15)) & 1 == 0 };
+            policy_set_script(e, pol, &w.account, r.id, &s);
+        }
+    }
+    // ---- expectation
+    let pin = ProbeIn { now, sigs: &sigs, contexts: &sels, scripts: &scripts };
+    let expect = oracle(rules, &pin, Variant::Spec);
+    let what = format!(
+        "probe {pi} at ledger {now}: signatures {:?}, contexts {:?}, rules {:?}, scripts {:?}; statement says {:?}",
+        sigs, sels, rules, scripts, expect
+    );
+    classify(rules, &pin, &expect, ctx, st);
+
+    // ---- direct probe
+    let mut payload = [p.payload; 32];
+    payload[1] = pi as u8;
+    payload[2] = 0xC3;
+    let (signatures, entries) = build_signatures(w, &sigs, &payload);
+    let before = read_logs(w);
+    envx::set_entries(e, &entries);
+    let sig_val: Val = signatures.clone().into_val(e);
+    let r = e.try_invoke_contract_check_auth::<soroban_sdk::Error>(&w.account, &BytesN::from_array(e, &payload), sig_val, &ctx_vec);
+    envx::no_auth(e);
+    let got_ok = r.is_ok();
+    ctx.op(got_ok);
+    ensure!(got_ok == expect.accepts(), verdict_sig(&expect, got_ok), "{what}; __check_auth returned {:?}", r);
+    let after = read_logs(w);
+    check_logs(w, &before, &after, &expect, &ctxs, &sigs, &payload, "direct", &what)?;
+
+    // ---- the same probe end-to-end
+    if e2e {
+        ctx.class("e2e_probe");
+        let chain_of = |from: usize| -> SVec<Address> {
+            let mut v = SVec::new(e);
+            for s in &sels[from..] {
+                if let CtxSel::Call(t) = s {
+                    v.push_back(w.targets[*t as usize].clone());
+                }
+            }
+            v
+        };
+        let target_of = |i: usize| -> Address {
+            match sels[i] {
+                CtxSel::Call(t) => w.targets[t as usize].clone(),
+                _ => unreachable!("e2e contexts are calls"),
+            }
+        };
+        // invocation tree: do_it(account, chain) -> do_it(account, rest) -> ...
+        let mut inv: Option<Inv> = None;
+        for i in (0..sels.len()).rev() {
+            let node = Inv::new(&target_of(i), "do_it", args![e; w.account.clone(), chain_of(i + 1)]);
+            inv = Some(match inv {
+                Some(sub) => node.with_sub(sub),
+                None => node,
+            });
+        }
+        let inv = inv.expect("at least one context");
+        let mut entry = envx::entry_with_sig(e, &w.account, &inv, ScVal::Void);
+        let Some(pl) = auth_payload(e, &entry) else { bail!("C03/harness/payload", "cannot compute the authorization payload") };
+        let (signatures, mut entries) = build_signatures(w, &sigs, &pl);
+        let sv: Val = signatures.into_val(e);
+        let sc = ScVal::try_from_val(e, &sv).map_err(|_| violation("C03/harness/scval", "signatures to ScVal"))?;
+        if let SorobanCredentials::Address(c) = &mut entry.credentials {
+            c.signature = sc;
+        }
+        entries.insert(0, entry);
+        let before = read_logs(w);
+        let calls_before: Vec<u32> = w.targets.iter().map(|t| target_calls(e, t)).collect();
+        envx::set_entries(e, &entries);
+        let r = envx::call(e, &target_of(0), "do_it", args![e; w.account.clone(), chain_of(1)]);
+        envx::no_auth(e);
+        ctx.op(r.is_ok());
+        ensure!(
+            r.is_ok() == expect.accepts(),
+            format!("{}/e2e", verdict_sig(&expect, r.is_ok())),
+            "{what}; direct __check_auth agreed with the statement, but Target.do_it(account) requiring the account's authorization returned {:?}",
+            r
+        );
+        let after = read_logs(w);
+        check_logs(w, &before, &after, &expect, &ctxs, &sigs, &pl, "e2e", &what)?;
+        let calls_after: Vec<u32> = w.targets.iter().map(|t| target_calls(e, t)).collect();
+        for (ti, (b, a)) in calls_before.iter().zip(calls_after.iter()).enumerate() {
+            let want = if r.is_ok() && sels.contains(&CtxSel::Call(ti as u8)) { b + 1 } else { *b };
+            ensure!(*a == want, "C03/e2e/target-effect", "{what}: target {ti} executed {} times, expected {}", a - b, want - b);
+        }
+        if r.is_ok() {
+            ctx.class("e2e_accept");
+        }
+    }
+    Ok(())
+}
+
+#[derive(Default)]
+struct Stats {
+    accepts: u32,
+    rejects: u32,
+    competing: bool,
+}
+
+/// Class counters: what the probe exercises, and which deliberately wrong readings of the
+/// statement it could tell apart from the right one (sensitivity of the generated population).
+fn classify(rules: &[MRule], p: &ProbeIn, expect: &Verdict, ctx: &mut Ctx, st: &mut Stats) {
+    let supplied: BTreeSet<usize> = p.sigs.iter().enumerate().filter(|(_, s)| **s != SigSel::Absent).map(|(i, _)| i).collect();
+    for c in p.contexts {
+        let n = candidates(rules, ctx_ty(c), p.now, Variant::Spec).len();
+        if n >= 2 {
+            st.competing = true;
+        }
+    }
+    match expect {
+        Verdict::Accept(chosen) => {
+            st.accepts += 1;
+            ctx.class("expect_accept");
+            if p.contexts.len() >= 2 {
+                ctx.class("multi_context_batch_accepted");
+            }
+            let mut outside = false;
+            for (c, sel) in chosen.iter().zip(p.contexts.iter()) {
+                let r = rules.iter().find(|r| r.born == c.born).expect("chosen rule in model");
+                let cands = candidates(rules, ctx_ty(sel), p.now, Variant::Spec);
+                if r.ty == RuleTy::Default {
+                    ctx.class("default_rule_used");
+                    if cands.iter().any(|x| x.ty != RuleTy::Default) {
+                        ctx.class("default_fallback_after_specific_unmet");
+                    }
+                }
+                if cands.first().map(|x| x.born) != Some(c.born) {
+                    ctx.class("newer_rule_unmet_older_used");
+                }
+                if supplied.iter().any(|s| !r.signers.contains(s)) {
+                    outside = true;
+                }
+                if c.auth.iter().any(|s| is_delegated(*s)) {
+                    ctx.class("delegated_signer_authenticated");
+                }
+                if !c.policies.is_empty() {
+                    ctx.class("policies_enforced");
+                    if c.auth.len() < r.signers.len() {
+                        ctx.class("policy_rule_with_partial_signers");
+                    }
+                }
+                if cands.iter().any(|x| x.born != c.born && !x.policies.is_empty()) {
+                    ctx.class("other_candidate_has_policies");
+                }
+            }
+            if outside {
+                ctx.class("signer_outside_rule_supplied");
+            }
+        }
+        Verdict::RejectBadSignature => {
+            st.rejects += 1;
+            ctx.class("expect_reject_bad_signature");
+            if p.sigs.iter().enumerate().any(|(i, s)| is_delegated(i) && matches!(s, SigSel::Bad(_))) {
+                ctx.class("delegated_signer_without_valid_entry");
+            }
+        }
+        Verdict::RejectNoRule(_) => {
+            st.rejects += 1;
+            ctx.class("expect_reject_no_covering_rule");
+        }
+        Verdict::RejectEnforceRefused => {
+            st.rejects += 1;
+            ctx.class("enforce_refusal");
+        }
+    }
+    for c in p.contexts {
+        let all = candidates(rules, ctx_ty(c), p.now, Variant::IgnoreExpiry).len();
+        let livec = candidates(rules, ctx_ty(c), p.now, Variant::Spec).len();
+        if all > livec {
+            ctx.class("expired_rule_skipped");
+        }
+        if rules.iter().any(|r| r.valid_until == Some(p.now) && (r.ty == RuleTy::Default || rule_matches(r.ty, ctx_ty(c)))) {
+            ctx.class("candidate_at_valid_until_ledger");
+        }
+    }
+    for (v, name) in [
+        (Variant::OldestFirst, "tells_apart:oldest_first"),
+        (Variant::DefaultFirst, "tells_apart:default_first"),
+        (Variant::ExpiredAtValidUntil, "tells_apart:expiry_boundary"),
+        (Variant::IgnoreExpiry, "tells_apart:ignore_expiry"),
+        (Variant::AnyRuleSigner, "tells_apart:any_rule_signer"),
+        (Variant::CountOutsiders, "tells_apart:count_outsiders"),
+        (Variant::NoVerify, "tells_apart:no_verify"),
+    ] {
+        let alt = oracle(rules, p, v);
+        if alt != *expect {
+            ctx.class(name);
+            if alt.accepts() != expect.accepts() {
+                ctx.class(&format!("{name}:verdict"));
+            }
+        }
+    }
+}
+
+pub fn run(case: &Case, ctx: &mut Ctx) -> R {
+    // constructor rule: Default, no expiry, at least one signer or policy
+    let mut init_signers = dedup(&case.init.signers);
+    init_signers.retain(|s| *s < POOL);
+    let init_policies: BTreeSet<usize> = case.init.policies.iter().map(|p| *p as usize % NPOL).collect();
+    if init_signers.is_empty() && init_policies.is_empty() {
+        init_signers.push(0);
+    }
+    let w = setup(case, &init_signers, &init_policies);
+    let e = &w.e;
+    if case.real_ed {
+        ctx.class("case_with_real_ed25519_verifier");
+    }
+    // the constructor rule's id
+    let first = envx::call_t::<SVec<ContextRule>>(e, &w.account, "get_context_rules", args![e; ContextRuleType::Default]).map_err(|er| violation("C03/setup/getter-failed", er))?;
+    ensure!(first.len() == 1, "C03/setup/rule-set-mismatch", "constructor created {} default rules", first.len());
+    let mut rules = vec![MRule {
+        born: 0,
+        id: first.get(0).map(|r| r.id).unwrap_or(0),
+        ty: RuleTy::Default,
+        signers: init_signers.iter().copied().collect(),
+        policies: init_policies.clone(),
+        valid_until: None,
+    }];
+    let mut born = 1u32;
+
+    // ---- rule-set history (admin functions need the account's own authorization: mocked, not the subject)
+    e.mock_all_auths();
+    for op in case.ops.iter().take(12) {
+        apply_op(&w, &mut rules, &mut born, op, ctx)?;
+    }
+    envx::no_auth(e);
+    check_rule_set(&w, &rules)?;
+
+    // ---- probes
+    let mut st = Stats::default();
+    for (pi, p) in case.probes.iter().take(4).enumerate() {
+        run_probe(&w, &rules, pi, p, ctx, &mut st)?;
+    }
+    if st.competing && st.accepts > 0 && st.rejects > 0 {
+        ctx.nontrivial = true;
+        ctx.class("nontrivial");
+    }
+    Ok(())
+}
 
 pub fn property() -> Property {
-    Property { id: "C03", rule: "", subs: vec![], floors: vec![], assumptions: vec![] }
+    Property {
+        id: "C03",
+        rule: "case = constructor rule + <=12 admin ops (add rule {Default|CallContract(T0|T1)|CreateContract(W0), signers from a pool of 6 external + 2 delegated, \
+               policies from 4 mocks, valid_until None|now-k|now|now+k}, remove rule, add/remove signer, add/remove policy, update valid_until, rename, advance (also to valid_until-1/0/+1)) \
+               then 1..4 probes of __check_auth (per signer absent/good/bad incl. unknown signers and delegated signers with/without auth entry; 1..3 contexts from call T0/T1/T2, create W0/W1; \
+               scripted can_enforce/enforce per policy and rule); 1/5 of the cases use the real Ed25519 verifier; call-only probes are partly repeated end-to-end. \
+               non-trivial = some probed context has >= 2 live candidate rules AND the statement's verdicts over the probes include both accept and reject; distinct = distinct serialised case",
+        subs: vec![Box::new(Gen::<Case> { name: "check-auth", quick: 1500, thorough: 25000, strategy, run, max_shrink_iters: 2500 })],
+        floors: vec![
+            ("nontrivial", 50, 800),
+            ("expired_rule_skipped", 100, 1600),
+            ("candidate_at_valid_until_ledger", 90, 1440),
+            ("default_fallback_after_specific_unmet", 20, 320),
+            ("newer_rule_unmet_older_used", 50, 800),
+            ("signer_outside_rule_supplied", 200, 3200),
+            ("multi_context_batch_accepted", 80, 1280),
+            ("enforce_refusal", 10, 160),
+            ("policies_enforced", 200, 3200),
+            ("other_candidate_has_policies", 100, 1600),
+            ("delegated_signer_authenticated", 90, 1440),
+            ("delegated_signer_without_valid_entry", 25, 400),
+            ("e2e_accept", 30, 480),
+            ("case_with_real_ed25519_verifier", 25, 400),
+            ("tells_apart:oldest_first", 40, 640),
+            ("tells_apart:default_first", 35, 560),
+            ("tells_apart:expiry_boundary", 24, 384),
+            ("tells_apart:any_rule_signer", 40, 640),
+            ("tells_apart:count_outsiders", 75, 1200),
+            ("tells_apart:no_verify", 80, 1280),
+        ],
+        assumptions: vec![
+            "Soroban native test host is trusted (auth manager, rollback of failed invocations, ed25519 host function)",
+            "a rule is usable up to and including ledger valid_until (add_context_rule documents only valid_until < current ledger as 'in the past')",
+            "policies answer can_enforce deterministically and without panicking (Policy docs: idempotent, side-effect free); verifiers that panic count as 'does not verify'",
+            "set-up operations run under mock_all_auths; the model follows their actual outcome and is cross-checked against the account's getters before probing",
+        ],
+    }
 }
